@@ -6,6 +6,16 @@ ALL = ["C%02d" % i for i in range(1, 21)]
 
 # id -> dict(level, text, note, technique, design, engine, thorough=True)
 CHECKS = {
+ "C11": dict(level="model_checking",
+  text="(1) Explicit-state BFS over histories {serve down | bad-signature{r} | parse-failure-after-entries{r} | unimplemented-critical-extension{r} | good{a} | good{}; probe-all; tick; background fetch completes; restart} to depth 4 (quick) / 5 (thorough) for fetch mode x backend, with a reference model of the list in force; oracle: a probe is reported revoked only if the list in force lists it (entries of rejected or superseded lists never revoke). (2) Exhaustive neighbourhood: one CRL of issuer A listing 6 serials (incl. >64-bit and 20-byte), every arithmetic/byte/decimal neighbour serial probed under issuer A and under 5 other issuers (different DN, DN + '_<digits>' suffix, other case, extra RDN), both backends.",
+  note="Up to 64-bit FNV key collisions (excluded by the property). Canonical key includes store and work_dir digests.",
+  technique="explicit-state model checking over event histories against a reference model + exhaustive probe neighbourhood on the implementation",
+  design="DESIGN.md §4 C11", engine="history explorer (fw.BFS)"),
+ "C16": dict(level="model_checking",
+  text="Exhaustive matrix signature mode (unset, verify, verify_log, none) x signer (resolvable, unknown, wrong signature) x intake path (provision-time crl_file, provision-time crl_url, first CDP fetch active, first CDP fetch background, periodic refresh, refresh after restart) x backend: 132 cells, each a short history on the real caddy module (Provision -> strict handshakes -> publish v2 -> tick on the virtual clock -> handshakes -> restart with origin down -> handshakes); oracle: the version in force at every probe equals what the policy demands; Provision must succeed whenever the mode accepts the configured CRL.",
+  note="Finite table, enumerated completely. The real ticker goroutine is driven by the virtual clock.",
+  technique="exhaustive configuration x history enumeration (finite state table) on the implementation under a virtual clock",
+  design="DESIGN.md §4 C16", engine="top-level world (caddy module) + vsched"),
  "C10": dict(level="model_checking",
   text="Explicit-state BFS over event histories {handshake(listed|clean), set-server(url, down|garbage|bad-signature|good), refresh tick (virtual clock), background-fetch completes (held thread released), restart} to depth 4 (quick) / 5 (thorough) for all 144 configurations CDP set(6: http, https, ldap, ldap+http, two http, file) x fetch mode(2) x signature mode(3) x backend(2) x strict(2), on the real CRLRevocationChecker. After every handshake the verdict is compared with a reference model of 'a CRL for this distribution-point set is in force': strict accepts only then, lenient never denies an unlisted certificate. Canonical state key includes store content and work_dir digests (left-over data is state).",
   note="All served CRL variants list the same serials so that only in-force-ness and listed-ness enter the oracle; which of several URLs is asked first is mirrored, not judged.",
